@@ -171,4 +171,17 @@ theorem count_gen (w : Word) :
       Stmt.needs, Cond.needs, Rhs.needs, evalC, evalRhs, doAcc, eval, i64op, resolve, loadAt, casAt, retEvs,
       Got.Model.AtomicIR.upd, isIdle]
 
+/-- HasFlag: for every flag word and mask the translated source returns `(v & f) != 0` -/
+theorem hasFlag_gen (v f : Got.Model.Atomics.W64) :
+    (hasFlagRun v f).hist = [(0, Ev.inv 2 [.i64 f]), (0, Ev.ret (some (.bool (Got.Model.Atomics.hasFlag v f))))] ∧
+      (hasFlagRun v f).mem.cell = v := by
+  constructor
+  · simp [hasFlagRun, flagProgH, flagInit, step, stepThread, startThread, GState.apply, Got.Generated.AstLoomAtomics.hasFlag,
+      enter, unwind, exec, stepFuel, Stmt.needs, Cond.needs, Rhs.needs, evalC, evalRhs, doAcc, eval, i64op, resolve, loadAt,
+      casAt, retEvs, Got.Model.AtomicIR.upd, Got.Model.Atomics.hasFlag]
+    by_cases h : v &&& f = 0#64 <;> simp [h]
+  · simp [hasFlagRun, flagProgH, flagInit, step, stepThread, startThread, GState.apply, Got.Generated.AstLoomAtomics.hasFlag,
+      enter, unwind, exec, stepFuel, Stmt.needs, Cond.needs, Rhs.needs, evalC, evalRhs, doAcc, eval, i64op, resolve, loadAt,
+      casAt, retEvs, Got.Model.AtomicIR.upd]
+
 end Got.Lemmas.AtomicsAst
